@@ -12,36 +12,50 @@ REPO_SOURCES = ["src/Algorithms/GradientDescent/AbstractLineSearchOptimizer.cpp"
                 "src/Algorithms/GradientDescent/Rprop.cpp",
                 "src/Algorithms/GradientDescent/TrustRegionNewton.cpp",
                 "src/Core/Random.cpp"]
-LAKE_TARGETS = ["SharkVerif.Props.C10", "drv_c10"]
+LAKE_TARGETS = ["SharkVerif.Props.C10", "SharkVerif.Gen.LbfgsBox", "drv_c10"]
 
 TRUST = ("Lean 4.33 kernel; axioms at most propext/Classical.choice/Quot.sound (audited per run); hand-written model "
          "tied to the C++ by the correspondence harness (differential, generator-bounded); ")
 MANIFEST = dict(
   text=("Theorems (Props/C10.lean) about executable models of SteepestDescent, Adam, the Rprop family, "
-        "AbstractLineSearchOptimizer with BFGS / CG / L-BFGS (unconstrained direction) and the backtracking line search, "
+        "AbstractLineSearchOptimizer with BFGS / CG / L-BFGS (unconstrained direction AND the box-constrained Cauchy-point/dog-leg direction getBoxConstrainedDirection) and the backtracking line search, "
         "for every objective (arbitrary f, grad, feasibility predicate), starting point, parameter setting and number of steps: "
         "best_value_is_f_best_point (reported value = f(reported point) after init and every step, for every optimizer of the model and every scalar type incl. Float), "
         "ls_derivative_is_grad_best_point, backtracking_no_increase (+ failure leaves point/value/gradient unchanged), "
         "linesearch_methods_monotone_bfgs (the values reported by BFGS with any dimension-preserving no-increase line search, in particular backtracking, are non-increasing over the whole run, "
         "because bfgsUpdate_listPD keeps the list-based inverse-Hessian approximation symmetric positive definite (transported from bfgs_update_symPD on Mathlib matrices) and bfgs_direction_descent gives g'd<0), "
         "linesearch_methods_monotone_partial (any of BFGS/CG/L-BFGS: one step does not increase the value given a non-ascent direction), direction_descent_neg_gradient, "
+        "box-constrained L-BFGS direction, for every dimension, box, point inside the box, gradient and every pair of implicit matrices positive on the projected gradient: "
+        "coords_ok (what the split into movable and blocked variables guarantees), box_direction_feasible_partial (x + d stays in the box unless the Cauchy point touches a bound; box_direction_touching_witness shows the hypothesis cannot be dropped = finding F-C10-12), "
+        "box_direction_descent (g'd < 0 whenever the projected gradient is non-zero) and box_direction_nonzero (d != 0 in that case: the clipped step lengths are positive because the loop only takes minima with positive numbers), "
         "sd/adam/rprop/ls/trn_step_reads_archived (against member lists regenerated from the C++ read/write bodies by translate/opt_fields.py on every run: every member step reads is archived, read mirrors write, the archive is the model's Saved structure), "
         "box_feasible_inv_rprop (Rprop never leaves the feasible set), resume_same_iterates (read(write s) = s for the archived members, so a restored instance continues with the same iterates). "
         "Tie: SteepestDescent/Adam/Rprop are compared bit for bit (Float instance of the same definitions, same operation order) and, for every C++ step that raised no FE_INEXACT, "
-        "exactly with the Rat instance; BFGS/CG/L-BFGS by one-step refinement from the harness' own previous state (bit-identical in >90% of the steps, 1e-9 tolerance otherwise); "
+        "exactly with the Rat instance; all 8 Rprop variants (useFreezing x useBacktracking x useOldValue) are additionally run on non-separable quadratics in boxes narrower than the step sizes placed around the minimiser; "
+        "BFGS/CG/L-BFGS by one-step refinement from the harness' own previous state (bit-identical in >90% of the steps, 1e-9 tolerance otherwise), for box-constrained L-BFGS including the history update and the dog-leg direction "
+        "(active set reproduced bit for bit; multBInv/multB of the real code are inputs of the model; the text of getBoxConstrainedDirection is pinned by translate/lbfgs_box.py, which also selects the model variant the tree contains); "
+        "getBoxConstrainedDirection is additionally called directly on injected states (every coordinate on its lower bound / on its upper bound / inside, gradient component zero / inward / outward, narrow and wide boxes, 0..3 curvature pairs, exact ties) "
+        "with an independent oracle (finite, x+d in the box, blocked coordinates do not move, d = 0 iff the projected gradient is 0, g'd < 0); "
         "the line searches are additionally called directly from arbitrary points along arbitrary (descent, ascent, zero, random) directions (backtracking compared with the model, all three types checked against the contracts value=f(point), gradient=grad(point), no increase when g'd<=0); "
+        "configuration axes crossed on every run: line-search type (also requested on box-constrained objectives, where init forces backtracking), initial bracket minInterval/maxInterval, L-BFGS history size, TrustRegionNewton initial radius and minImprovementRatio, all setters of SteepestDescent/Adam/Rprop; "
+        "per-step oracle on every run: value = f(point) bit for bit, finite, feasible (BoxConstraintHandler::isFeasible AND plain comparisons with the bounds), no increase for line-search methods and TRN, restored instance = uninterrupted twin; "
+        "convergence oracle (numerical, tolerance 1e-6(1+||b||_inf) on the KKT residual x - clamp(x - g, l, u), which is the gradient without a box) after 300/400/1000 steps on strictly convex quadratics, "
+        "for box-constrained L-BFGS on problems whose minimiser has active upper and lower bounds, from starting points inside, on faces and in corners; "
         "save/restore at random step indices through text and binary archives into a 0xFF-poisoned fresh instance, strict and lenient protocol."),
   note=TRUST + "monotonicity over whole runs is proved for BFGS only; for CG and L-BFGS only the one-step statement under the hypothesis that the direction is a non-ascent direction "
-       "(not provable for the C++ CG restart branch d := d - g, nor for Dai-Yuan CG with an Armijo-only line search; the L-BFGS two-loop recursion is modelled and tied but its positive definiteness is not proved); "
+       "(not provable for the C++ CG restart branch d := d - g, nor for Dai-Yuan CG with an Armijo-only line search; the L-BFGS two-loop recursion is modelled and tied but its positive definiteness is not proved, "
+       "so box_direction_descent/nonzero carry p0'Bp0 > 0 and p0'B^-1 p0 > 0 as hypotheses; multB (compact representation, BLAS) is a parameter of the model, not modelled); "
+       "the box-direction theorems are about the variant of the function in the unrepaired tree; the repaired variants (clipping by the sign of the direction, scaled Cauchy step) are modelled and tied bit for bit but have no theorems yet; "
        "only exercised by the correspondence / harness oracle (not theorems): dlinmin and wolfecubic line searches (contracts LSSound/LSNoIncrease are hypotheses, checked per step on the real code), "
-       "the box-constrained L-BFGS dog-leg (feasibility + monotonicity oracle only), TrustRegionNewton (oracle only: value=f(point), finite, no increase, resume), "
-       "finiteness, convergence on strictly convex quadratics (numerical: ||grad||_inf <= 1e-6(1+||b||_inf) after 400/1000 steps). "
-       "Findings F8a-e, F9, F10, F11 (findings_proposed/C10.md) make the check fail on the unpatched tree; it is green on the tree with the proposed patches.",
-  technique="Lean 4 invariant/refinement proofs over all step sequences + differential correspondence with the C++ (ASan/UBSan), bit-exact and exact-rational modes",
-  design="§6 C10")
+       "TrustRegionNewton (oracle only: value=f(point), finite, no increase, resume), finiteness, convergence on strictly convex quadratics (numerical oracle inside the harness, tolerance as stated). "
+       "Open findings on the unpatched tree (known_findings.json, findings_proposed/C10.md): F11, F-C10-12 (dog-leg ignores a bound at distance 0: infeasible direction / 'internal error'), "
+       "F-C10-13 (stall when an iterate is outside the box by rounding), F-C10-14 (Cauchy step lacks the factor |p0|^2: thousands of steps); the check is green on the tree with the proposed patches and follows them automatically.",
+  technique="Lean 4 invariant/refinement proofs over all step sequences + differential correspondence with the C++ (ASan/UBSan), bit-exact and exact-rational modes; independent numerical oracles in the harness",
+  design="§6 C10, §14 C10")
 FINISH = dict(level="proof",
               rule="one case = objective (integer strictly convex quadratic A=M'M+kI n<=5 | Rosenbrock n<=4, optional dyadic box) + optimizer + "
-                   "dyadic starting point + steps with save/restore ops at random indices; non-trivial = at least 3 steps; distinct = distinct op text")
+                   "dyadic starting point + steps with save/restore ops at random indices | direct line searches | direct calls of getBoxConstrainedDirection "
+                   "on injected states | Rprop variant x narrow box | box-constrained L-BFGS convergence problem; non-trivial = at least 3 steps/calls; distinct = distinct op text")
 
 
 def fb(x):
@@ -567,7 +581,9 @@ def load_corpus():
 
 
 def translate(ctx):
-    return ctx.translate("opt_fields.py")
+    a = ctx.translate("opt_fields.py")
+    b = ctx.translate("lbfgs_box.py")
+    return a and b
 
 
 def build(ctx):
